@@ -148,67 +148,249 @@ def encode_index_agreement(ctx: Ctx, rule: str) -> None:
 
 # ------------------------------------------------------------------ column removal
 def column_removal(ctx: Ctx, rule: str) -> None:
+    """prepare_dataframe_for_body_encoding: the displayed frame, the attribute matrices and col_rel_width must be cut
+    at the positions the removed columns have in the ORIGINAL frame.  Constructs are recognised by role (tolerant of
+    container type, temporaries, helper closures, comprehension vs loop); their property-relevant attributes are then
+    verified; a construct that cannot be recognised is an analysis gap, not a violation."""
+    from ..astmatch import assignments, find, match, resolve, strip_wrappers
     pm = ctx.pm
     fi = pm.func("RTFEncodingService.prepare_dataframe_for_body_encoding")
-    env = {unparse(a.targets[0]): a.value for a in walk_no_nested(fi.node) if isinstance(a, ast.Assign) and len(a.targets) == 1}
-    rem = unparse(env["remaining_columns"]) if "remaining_columns" in env else "?"
-    ok_rem = rem == "[col for col in processed_df.columns if col not in columns_to_remove]"
-    sel = [c for c in walk_no_nested(fi.node) if isinstance(c, ast.Call) and isinstance(c.func, ast.Attribute) and c.func.attr == "select"]
-    ok_sel = len(sel) == 1 and unparse(sel[0]) == "processed_df.select(remaining_columns)"
-    ctx.instance(rule, fi.where(), f"remaining columns `{rem}`; select: {unparse(sel[0]) if sel else '?'}")
-    if not (ok_rem and ok_sel):
-        ctx.violation(rule, fi.short, "remaining columns " + rem, fi.where(), "displayed columns are not the frame's own columns, in their order, minus the removed set")
-    ridx = unparse(env["removed_indices"]) if "removed_indices" in env else "?"
-    ok_idx = ridx == "[original_df.columns.index(col) for col in columns_to_remove]"
-    shape = next((unparse(a.value) for a in walk_no_nested(fi.node) if isinstance(a, ast.Assign) and unparse(a.targets[0]) in ("(rows, cols)", "rows, cols")), "?")
-    ctx.instance(rule, fi.where(), f"removed indices `{ridx}`; attribute grid shape from {shape}")
-    if not ok_idx:
-        ctx.violation(rule, fi.short, "removed_indices " + ridx, fi.where(),
-                      "positions of removed columns are not looked up in the ORIGINAL frame's column list; with two or more removed columns later positions shift "
-                      "and the wrong width/attribute entries are cut")
-    if shape != "original_df.shape":
-        ctx.violation(rule, fi.short, "grid shape " + shape, fi.where(), "attributes are not expanded to the original frame's shape before columns are cut")
-    filters = [unparse(n) for n in ast.walk(fi.node) if isinstance(n, ast.ListComp) and "removed_indices" in unparse(n)]
-    want = {"[item for i, item in enumerate(row_data) if i not in removed_indices]", "[w for i, w in enumerate(current_widths) if i not in removed_indices]"}
-    ctx.instance(rule, fi.where(), f"index filters: {filters}")
-    if set(filters) != want:
-        ctx.violation(rule, fi.short, "index filters " + str(filters), fi.where(), "col_rel_width and the attribute matrices are not cut with the same removed index set")
-    t = unparse(fi.node)
-    if "expanded = BroadcastValue(value=val, dimension=(rows, cols)).to_list()" not in t or "setattr(processed_attrs, attr_name, sliced_expanded)" not in t:
-        ctx.violation(rule, fi.short, "attribute slicing", fi.where(), "list attributes are no longer expanded to the full grid, cut column-wise and stored back")
-    if "processed_attrs = rtf_attrs.model_copy(deep=True)" not in t:
-        ctx.violation(rule, fi.short, "attrs copy", fi.where(), "attributes are cut in place instead of on a deep copy")
-    if "len(current_widths) == cols" not in t or "processed_attrs.col_rel_width = new_widths" not in t:
-        ctx.violation(rule, fi.short, "width slicing", fi.where(), "col_rel_width is not cut together with the columns")
-    if "return (processed_df, original_df, processed_attrs)" not in t:
-        ctx.violation(rule, fi.short, "return", fi.where(), "prepare_dataframe_for_body_encoding no longer returns (reduced frame, original frame, reduced attributes)")
+    fn = fi.node
+    asg = assignments(fn)
+    params = [a.arg for a in fn.args.args]
+    n_assign = {k: len(v) for k, v in asg.items()}
+
+    def frame_kind(e: ast.AST) -> str:
+        """'original' / 'shrinking' / '?' for an expression denoting a frame (or its column list)"""
+        e = strip_wrappers(resolve(e, fn, _asg=asg))
+        if isinstance(e, ast.Attribute) and e.attr == "columns":
+            e = e.value
+        if isinstance(e, ast.Call) and isinstance(e.func, ast.Attribute) and e.func.attr == "clone":
+            e = e.func.value
+        if isinstance(e, ast.Name):
+            if e.id in params and n_assign.get(e.id, 0) == 0:
+                return "original"
+            if n_assign.get(e.id, 0) > 1:
+                return "shrinking"
+            if n_assign.get(e.id, 0) == 1:
+                return frame_kind(asg[e.id][0])
+        return "?"
+
+    # 1. positions of removed columns
+    pos_sites = []
+    for n, b in find("_X.index(_C)", fn) + find("_X.get_column_index(_C)", fn):
+        pos_sites.append((n, b["_X"], "lookup"))
+    for n in ast.walk(fn):
+        if isinstance(n, (ast.ListComp, ast.SetComp, ast.GeneratorExp)) and len(n.generators) == 1:
+            g = n.generators[0]
+            if isinstance(g.iter, ast.Call) and dotted(g.iter.func) == "enumerate" and g.iter.args and isinstance(g.target, ast.Tuple) and len(g.target.elts) == 2 \
+                    and isinstance(n.elt, ast.Name) and isinstance(g.target.elts[0], ast.Name) and n.elt.id == g.target.elts[0].id \
+                    and any("columns_to_remove" in unparse(c) for c in g.ifs):
+                pos_sites.append((n, g.iter.args[0], "enumerate"))
+    kinds = []
+    for n, x, how in pos_sites:
+        k = frame_kind(x)
+        kinds.append(k)
+        ctx.instance(rule, fi.where(n), f"position of a removed column ({how}) taken from `{unparse(x)}` -> {k} frame")
+        if k == "shrinking":
+            ctx.violation(rule, fi.short, "removed_indices " + unparse(n)[:80], fi.where(n),
+                          f"positions of removed columns are looked up in `{unparse(x)}`, a frame that is re-bound while columns are dropped; with two or more "
+                          "removed columns later positions shift and the wrong width/attribute entries are cut")
+    if not pos_sites or all(k == "?" for k in kinds):
+        ctx.gap(rule, "prepare_dataframe_for_body_encoding: how the positions of the removed columns are computed could not be re-identified")
+
+    # 2. cuts: filter by position, or in-place deletion
+    cuts = 0
+    for n in ast.walk(fn):
+        if isinstance(n, (ast.ListComp, ast.GeneratorExp)) and len(n.generators) == 1:
+            g = n.generators[0]
+            if isinstance(g.iter, ast.Call) and dotted(g.iter.func) == "enumerate" and isinstance(g.target, ast.Tuple) and len(g.target.elts) == 2 and len(g.ifs) == 1:
+                i_name = g.target.elts[0].id if isinstance(g.target.elts[0], ast.Name) else None
+                t = g.ifs[0]
+                if i_name and isinstance(t, ast.Compare) and len(t.ops) == 1 and isinstance(t.left, ast.Name) and t.left.id == i_name \
+                        and isinstance(t.ops[0], (ast.In, ast.NotIn)) and not any("columns_to_remove" in unparse(c) for c in g.ifs):
+                    item_ok = isinstance(n.elt, ast.Name) and isinstance(g.target.elts[1], ast.Name) and n.elt.id == g.target.elts[1].id
+                    cuts += 1
+                    ctx.instance(rule, fi.where(n), f"cut by position: `{unparse(n)[:90]}`")
+                    if isinstance(t.ops[0], ast.In):
+                        ctx.violation(rule, fi.short, "index filters " + unparse(n)[:80], fi.where(n), "the filter keeps the entries AT the removed positions instead of dropping them")
+                    elif not item_ok:
+                        ctx.violation(rule, fi.short, "index filters " + unparse(n)[:80], fi.where(n), "the filter does not keep the entry itself")
+    for n in ast.walk(fn):
+        tgt = None
+        if isinstance(n, ast.Delete) and len(n.targets) == 1 and isinstance(n.targets[0], ast.Subscript):
+            tgt = n.targets[0].slice
+        elif isinstance(n, ast.Call) and isinstance(n.func, ast.Attribute) and n.func.attr == "pop" and len(n.args) == 1:
+            tgt = n.args[0]
+        if tgt is None or not isinstance(tgt, ast.Name):
+            continue
+        loop = next((a for a in anc(n, fn) if isinstance(a, ast.For) and isinstance(a.target, ast.Name) and a.target.id == tgt.id), None)
+        if loop is None:
+            continue
+        cuts += 1
+        it = loop.iter
+        src = resolve(it, fn, _asg=asg)
+        desc = "reverse=True" in unparse(src) or (isinstance(src, ast.Call) and dotted(src.func) == "reversed")
+        if isinstance(it, ast.Name):
+            desc = desc or any(isinstance(c, ast.Call) and isinstance(c.func, ast.Attribute) and c.func.attr == "sort" and isinstance(c.func.value, ast.Name)
+                               and c.func.value.id == it.id and "reverse=True" in unparse(c) for c in ast.walk(fn))
+        ctx.instance(rule, fi.where(n), f"in-place deletion at positions from `{unparse(it)}` (descending: {desc})")
+        if not desc:
+            ctx.violation(rule, fi.short, "index filters in-place " + unparse(n)[:60], fi.where(n),
+                          f"entries are deleted in place at positions taken from `{unparse(it)}` which is not in descending order: every deletion shifts the later positions")
+    if cuts < 2:
+        ctx.gap(rule, f"prepare_dataframe_for_body_encoding: only {cuts} cut(s) by position recognised (attribute rows and col_rel_width expected)")
+
+    # 3. the displayed frame keeps the remaining columns in frame order
+    sels = [c for c in ast.walk(fn) if isinstance(c, ast.Call) and isinstance(c.func, ast.Attribute) and c.func.attr in ("select", "drop")]
+    if not sels:
+        ctx.gap(rule, "prepare_dataframe_for_body_encoding: the reduction of the displayed frame (select/drop) could not be re-identified")
+    for c in sels:
+        if c.func.attr != "select" or not c.args:
+            continue
+        arg = resolve(c.args[0], fn, _asg=asg)
+        ctx.instance(rule, fi.where(c), f"displayed frame: `{unparse(c)[:60]}` with `{unparse(arg)[:90]}`")
+        if isinstance(arg, (ast.ListComp, ast.GeneratorExp)) and len(arg.generators) == 1:
+            g = arg.generators[0]
+            src = strip_wrappers(resolve(g.iter, fn, _asg=asg), names=("list", "tuple", "iter"))
+            cond = [unparse(x) for x in g.ifs]
+            if not (isinstance(src, ast.Attribute) and src.attr == "columns"):
+                if isinstance(src, ast.Call) and dotted(src.func) in ("sorted", "set", "frozenset", "reversed") or isinstance(src, (ast.Set, ast.SetComp, ast.BinOp)):
+                    ctx.violation(rule, fi.short, "remaining columns " + unparse(arg)[:80], fi.where(c), "the displayed columns are not taken in the frame's own column order")
+                else:
+                    ctx.gap(rule, f"prepare_dataframe_for_body_encoding: column source `{unparse(src)[:60]}` of the displayed frame not recognised")
+            if len(cond) == 1 and match("_C in columns_to_remove", g.ifs[0]) is not None:
+                ctx.violation(rule, fi.short, "remaining columns " + unparse(arg)[:80], fi.where(c), "the displayed frame keeps exactly the columns that should be removed")
+            elif not (len(cond) == 1 and match("_C not in columns_to_remove", g.ifs[0]) is not None):
+                ctx.gap(rule, f"prepare_dataframe_for_body_encoding: filter `{cond}` of the displayed columns not recognised")
+            if not (isinstance(arg.elt, ast.Name) and isinstance(g.target, ast.Name) and arg.elt.id == g.target.id):
+                ctx.gap(rule, "prepare_dataframe_for_body_encoding: displayed-column comprehension does not yield the column itself")
+        else:
+            ctx.gap(rule, f"prepare_dataframe_for_body_encoding: argument `{unparse(arg)[:60]}` of select not recognised")
+
+    # 4. attribute grid is expanded to the ORIGINAL shape
+    exps = find("BroadcastValue(value=_V, dimension=_D)", fn)
+    if not exps:
+        ctx.gap(rule, "prepare_dataframe_for_body_encoding: expansion of list attributes to the full grid (BroadcastValue(...)) not re-identified")
+    for n, b in exps:
+        d = b["_D"]
+        srcs = []
+        if isinstance(d, ast.Tuple):
+            for e in d.elts:
+                if isinstance(e, ast.Name):
+                    # unpacked from X.shape ?
+                    for a in walk_no_nested(fn):
+                        if isinstance(a, ast.Assign) and isinstance(a.targets[0], (ast.Tuple, ast.List)) and any(isinstance(x, ast.Name) and x.id == e.id for x in a.targets[0].elts):
+                            srcs.append(a.value)
+                            break
+                    else:
+                        srcs.append(resolve(e, fn, _asg=asg))
+                else:
+                    srcs.append(resolve(e, fn, _asg=asg))
+        else:
+            srcs.append(resolve(d, fn, _asg=asg))
+        ks = set()
+        for sx in srcs:
+            base = sx
+            while isinstance(base, (ast.Subscript, ast.Attribute)) and not (isinstance(base, ast.Attribute) and base.attr in ("shape", "height", "width")):
+                base = base.value
+            if isinstance(base, ast.Attribute):
+                ks.add(frame_kind(base.value))
+            elif isinstance(base, ast.Call) and dotted(base.func) == "len" and base.args:
+                ks.add(frame_kind(base.args[0]))
+            else:
+                ks.add("?")
+        ctx.instance(rule, fi.where(n), f"attribute grid shape `{unparse(d)}` from {sorted(ks)} frame")
+        if "shrinking" in ks:
+            ctx.violation(rule, fi.short, "grid shape " + unparse(d), fi.where(n), "attributes are not expanded to the original frame's shape before columns are cut")
+        elif ks != {"original"}:
+            ctx.gap(rule, f"prepare_dataframe_for_body_encoding: source of the grid shape `{unparse(d)}` not recognised")
+
+    # 5. cuts are applied to a deep copy of the caller's attributes
+    stores = []
+    for n in ast.walk(fn):
+        if isinstance(n, ast.Call) and dotted(n.func) == "setattr" and n.args and isinstance(n.args[0], ast.Name):
+            stores.append((n, n.args[0].id))
+        elif isinstance(n, (ast.Assign, ast.AugAssign)):
+            for t in (n.targets if isinstance(n, ast.Assign) else [n.target]):
+                if isinstance(t, ast.Attribute) and isinstance(t.value, ast.Name) and t.value.id not in ("self",):
+                    stores.append((n, t.value.id))
+    if not stores:
+        ctx.gap(rule, "prepare_dataframe_for_body_encoding: no store of a cut attribute recognised")
+    for n, name in stores:
+        vals = asg.get(name, [])
+        texts = [unparse(v) for v in vals]
+        deep = [t for t in texts if "model_copy(deep=True)" in t or "deepcopy(" in t]
+        alias = [t for t in texts if t in params or t.endswith(".model_copy()") or t.startswith("copy.copy(")]
+        ctx.instance(rule, fi.where(n), f"attribute store on `{name}` bound to {texts}")
+        if name in params or (alias and not deep):
+            ctx.violation(rule, fi.short, "attrs copy", fi.where(n), f"attributes are cut in place on `{name}` (the caller's object or a shallow copy of it) instead of on a deep copy")
+        elif not deep:
+            ctx.gap(rule, f"prepare_dataframe_for_body_encoding: origin of `{name}` not recognised")
+
+    # 6. result: (reduced frame, original frame, reduced attributes)
+    rets = [r for r in walk_no_nested(fn) if isinstance(r, ast.Return)]
+    for r in rets:
+        v = r.value
+        if not (isinstance(v, ast.Tuple) and len(v.elts) == 3):
+            ctx.gap(rule, f"prepare_dataframe_for_body_encoding: `{unparse(r)[:60]}` is not a triple")
+            continue
+        k0, k1 = frame_kind(v.elts[0]), frame_kind(v.elts[1])
+        ctx.instance(rule, fi.where(r), f"returns ({unparse(v.elts[0])}: {k0}, {unparse(v.elts[1])}: {k1}, {unparse(v.elts[2])})")
+        if k0 == "original" and k1 == "shrinking":
+            ctx.violation(rule, fi.short, "return", fi.where(r), "prepare_dataframe_for_body_encoding returns (original, reduced) instead of (reduced frame, original frame, attributes)")
 
 
 def body_section_widths(ctx: Ctx, rule: str) -> None:
-    """_encode_body_section: widths of the displayed columns from the reduced attributes and the page's col_width"""
+    """_encode_body_section: widths of the displayed columns come from the reduced attributes and the page's col_width.
+    Temporaries and if/else arms are expanded; a width built from anything but rtf_page.col_width (with the 8.5
+    default) is a violation, an expression that cannot be read is an analysis gap."""
+    from ..astmatch import alternatives, leaves
     pm = ctx.pm
     fi = pm.func("UnifiedRTFEncoder._encode_body_section")
-    env = single_assign_env(fi.node)
-    calls = [c for c in walk_no_nested(fi.node) if isinstance(c, ast.Call) and dotted(c.func).endswith("_col_widths")]
+    fn = fi.node
+    calls = [c for c in walk_no_nested(fn) if isinstance(c, ast.Call) and dotted(c.func).endswith("_col_widths")]
+    if not calls:
+        ctx.gap(rule, "_encode_body_section: no call of Utils._col_widths recognised")
     for c in calls:
-        rel = unparse(c.args[0])
-        w = c.args[1]
-        while isinstance(w, ast.Name) and w.id in env:
-            w = env[w.id]
-        wt = unparse(w)
-        inner = wt.replace("col_total_width", "document.rtf_page.col_width")
-        ok_w = inner in ("document.rtf_page.col_width", "document.rtf_page.col_width if document.rtf_page.col_width is not None else 8.5")
-        ok_rel = rel in ("processed_attrs.col_rel_width", "[1] * processed_df.shape[1]")
-        ctx.instance(rule, fi.where(c), f"_encode_body_section: _col_widths({rel}, {inner})")
-        if not ok_w:
-            ctx.violation(rule, fi.short, "table width " + inner, fi.where(c), f"data rows are laid out in `{inner}` instead of the configured rtf_page.col_width that every other row uses")
-        if not ok_rel:
-            ctx.violation(rule, fi.short, "relative widths " + rel, fi.where(c), f"data column widths come from `{rel}`, not from the reduced (displayed) attributes")
-    if len(calls) != 2:
-        ctx.violation(rule, fi.short, f"_col_widths x{len(calls)}", fi.where(), "_encode_body_section no longer derives the page's column widths from relative widths")
-    t = unparse(fi.node)
-    if "col_widths=col_widths" not in t:
-        ctx.violation(rule, fi.short, "widths not passed", fi.where(), "the computed column widths are not handed to pagination/rendering")
+        if len(c.args) < 2:
+            ctx.gap(rule, f"_encode_body_section: `{unparse(c)[:60]}` arguments not recognised")
+            continue
+        w_alts = alternatives(c.args[1], fn)
+        any_page = any("document.rtf_page.col_width" in leaves(w) for w in w_alts)
+        for w in w_alts:
+            wt = unparse(w)
+            lv = set(leaves(w))
+            arith = any(isinstance(n, (ast.BinOp,)) for n in ast.walk(w))
+            call = [dotted(n.func) for n in ast.walk(w) if isinstance(n, ast.Call)]
+            ok = lv <= {"document.rtf_page.col_width", "8.5", "None"} and any_page and not arith and not call
+            ctx.instance(rule, fi.where(c), f"_encode_body_section: table width `{wt[:100]}`")
+            if ok:
+                continue
+            foreign = [x for x in lv if x.startswith("document.") and x != "document.rtf_page.col_width"]
+            if foreign or arith or any(f in ("min", "max", "sum") for f in call):
+                ctx.violation(rule, fi.short, "table width " + wt[:80], fi.where(c),
+                              f"data rows are laid out in `{wt[:120]}` instead of the configured rtf_page.col_width that every other row uses")
+            else:
+                ctx.gap(rule, f"_encode_body_section: table width `{wt[:80]}` could not be traced to rtf_page.col_width")
+        for r in alternatives(c.args[0], fn):
+            rt = unparse(r)
+            ok = rt in ("processed_attrs.col_rel_width", "[1] * processed_df.shape[1]", "[1] * processed_df.width", "[1] * len(processed_df.columns)")
+            ctx.instance(rule, fi.where(c), f"_encode_body_section: relative widths `{rt[:100]}`")
+            if ok:
+                continue
+            lv = leaves(r)
+            if any(x.endswith("col_rel_width") and not x.startswith("processed_attrs.") for x in lv) or any(x.startswith(("original_df", "df.")) for x in lv):
+                ctx.violation(rule, fi.short, "relative widths " + rt[:80], fi.where(c), f"data column widths come from `{rt[:100]}`, not from the reduced (displayed) attributes/frame")
+            else:
+                ctx.gap(rule, f"_encode_body_section: relative widths `{rt[:80]}` not recognised")
+    passed = [k for n in walk_no_nested(fn) if isinstance(n, ast.Call) for k in n.keywords if k.arg == "col_widths"]
+    if not passed:
+        ctx.gap(rule, "_encode_body_section: the computed column widths are not seen being handed to pagination/rendering (col_widths=...)")
+    for k in passed:
+        vals = {unparse(v) for v in alternatives(k.value, fn)}
+        if not any("_col_widths(" in v for v in vals):
+            ctx.violation(rule, fi.short, "widths not passed", fi.where(), f"`col_widths={unparse(k.value)}` handed to pagination/rendering is not the result of Utils._col_widths")
 
 
 def broadcast_expansion(ctx: Ctx, rule: str) -> None:
